@@ -380,12 +380,12 @@ class Gen:
                     time = True
                 else:
                     c, v = rng.choice(opts)
-                    return self.push(["ex", k, i, c, v, rng.randrange(0, 3)])
+                    return self.push(["ex", k, i, c, v, rng.randrange(0, 4)])
             else:
                 c = rng.choice(["x", "y", "x", "y", "z"])
                 cur = sym.pos[h]["xyz".index(c)]
                 v = rng.choice([cur + 1.0, cur - 2.5, cur + 1e-6, cur + 1e4, rng.uniform(-1000, 1000)])
-                return self.push(["ex", k, i, c, v, rng.randrange(0, 3)])
+                return self.push(["ex", k, i, c, v, rng.randrange(0, 4)])
         for _ in range(6):
             field = rng.choice(["sec", "sec", "sec", "min", "ms"] if self.mode == "f" else ["sec", "sec", "sec", "min"])
             cur = sym.fld[h][field]
